@@ -41,6 +41,8 @@ for (const i of isa.instructions) {
       op.regIndexRel || 0, B(op.zext), roles[k], S(op.immValue)].join("|"));
   });
 }
-// io flags per form would go here if needed (C12 dumps them separately).
+// alias map: alias mnemonic -> instruction name
+const am = isa.aliases || {};
+for (const a of Object.keys(am)) L.push(["A", a, typeof am[a] === "string" ? am[a] : (am[a].name || JSON.stringify(am[a]))].join("|"));
 fs.writeFileSync(out, L.join("\n") + "\n");
 console.log("forms:", idx);
